@@ -32,7 +32,8 @@ def request_no(frame):
 class SymbolicPeer:
     """realises the reply script: per received write, a list of (delay_ms, kind, f)"""
 
-    def __init__(self, model, rng, hs_replies, replies):
+    def __init__(self, model, rng, hs_replies, replies, fast=False):
+        self.fast = fast
         self.dev = refpeer.RefDevice(model, rng, version=3)
         self.rng, self.replies, self.hs_replies = rng, list(replies), list(hs_replies)
         self.kid = 1                       # number of the next genuine handshake reply
@@ -50,12 +51,21 @@ class SymbolicPeer:
         out = []
         for delay, kind, f in reply:
             self.seq += 1
-            d = delay / 1000.0 + self.seq * 1e-7            # ties resolved in scheduling order, well above the loop's clock resolution
+            d = delay / 1000.0                              # simnet orders ties by scheduling order
             if kind == 4:
                 out.append((d, "close"))
             elif kind == 0:
                 fr = frame_of(f)
-                if not v3:
+                if self.fast:
+                    import lanmut
+                    v2 = lanmut.v2_good(bytes(fr))
+                    if not v3:
+                        out.append((d, v2))
+                    elif conn.cid in self.peerkey:
+                        out.append((d, lanmut.v3_encrypted(bytes(self.keys[self.peerkey[conn.cid]]), 3, self.seq % 65536, v2)))
+                    else:
+                        out.append((d, bytes(self.dev.error_packet())))
+                elif not v3:
                     out.append((d, bytes(self.dev.v2_packet(fr))))
                 elif conn.cid in self.peerkey:
                     conn.state["session_key"] = self.keys[self.peerkey[conn.cid]]
@@ -76,12 +86,12 @@ class SymbolicPeer:
         return out
 
 
-def run_impl(model, rng, conns, hs_replies, replies, ops):
+def run_impl(model, rng, conns, hs_replies, replies, ops, fast=False):
     """-> observation record: (now_ms, lan summary, [outcomes], [events])"""
     from msmart.lan import LAN
     from msmart.base_device import Device
     from msmart.frame import Frame
-    peer = SymbolicPeer(model, rng, hs_replies, replies)
+    peer = SymbolicPeer(model, rng, hs_replies, replies, fast=fast)
     net = simnet.Net(connects=[["ok", "refuse", "hang"][c] for c in conns], responder=peer)
     authed = {}      # cid -> last observed local key
 
@@ -98,6 +108,7 @@ def run_impl(model, rng, conns, hs_replies, replies, ops):
     bad_key = bytes((b ^ 0x55) for b in good_key)
     bad_tok = bytes((b ^ 0x55) for b in good_tok)
     events, outcomes = [], []
+    opinfo = []
 
     def scan():
         """turn what happened on the wire since the last scan into events (in order)"""
@@ -119,6 +130,17 @@ def run_impl(model, rng, conns, hs_replies, replies, ops):
                 elif data[5] & 0xF == 0:
                     st, outs = model.call(refpeer.F_HSPARSE, [list(data)])
                     events.append([2, cid, outs[0][0], int(outs[1] == list(good_tok))] if st == 0 else [9, cid])
+                elif fast:
+                    import lanmut
+                    ev = [9, cid]
+                    for kid, skey in reversed(list(peer.keys.items())):
+                        r = lanmut.v3_parse_request_fast(skey, data)
+                        if r is not None:
+                            fr = lanmut.v2_parse_fast(r[1])
+                            if fr is not None:
+                                ev = [3, cid, r[0], kid, request_no(fr)]
+                            break
+                    events.append(ev)
                 else:
                     ev = [9, cid]
                     for kid, skey in peer.keys.items():
@@ -160,7 +182,18 @@ def run_impl(model, rng, conns, hs_replies, replies, ops):
             outcomes.append([exn_code(e)])
         scan()
 
+    def entry_state():
+        import msmart.lan as L
+        proto = lan._protocol
+        now = L.datetime.now(None)
+        st = {"v3": lan._protocol_version == 3, "has_proto": proto is not None, "alive": bool(lan._alive) if proto is not None else False,
+              "authed": bool(getattr(proto, "authenticated", False)) if proto is not None else False, "nevents": len(events),
+              "time": net.loop.time()}
+        return st
+
     for op, a, b in ops:
+        scan()
+        opinfo.append(entry_state())
         if op == 1:
             call(lan.send(request_of(a), retries=b), "frames")
         elif op == 2:
@@ -191,6 +224,8 @@ def run_impl(model, rng, conns, hs_replies, replies, ops):
     summary = [0 if proto is None else (2 if not proto.alive else 1), int(lan._protocol_version == 3), creds, kid]
     now = round(net.loop.time() * 1000)
     net.close()
+    run_impl.last_opinfo = opinfo
+    run_impl.last_writes = [(t[1], t[2]) for t in net.log if t[0] == 'write']
     return now, summary, outcomes, events
 
 
